@@ -143,4 +143,47 @@ theorem fromIeee_normal_eq_assemble (c : Cfg) (hv : c.valid = true) (seb sfb qm 
     rw [q1, postProcess_id c _ q2 q3, hRR]
     rw [Nat.add_sub_cancel_left]
 
+/-- convert_ieee754<long double> (`fromLD`, the x86-64 transcription with its own hidden-bit mask, shift counts modulo 64
+    and uint64_t composition) coincides with the generic transcription `fromIeee` at ⟨15, 63⟩ on every normal source
+    whose exponent is a normal exponent of a target of at most 64 bits with fewer than 63 fraction bits: none of the
+    long-double peculiarities is reached there (they live in the subnormal range and on the block path). -/
+theorem fromLD_eq_fromIeee_normal (c : Cfg) (hv : c.valid = true) (qm sm hm bits : Nat)
+    (hspec : ieeeSpecial c 15 63 qm sm bits = none)
+    (hn64 : c.nbits ≤ 64)
+    (hexp0 : (bits >>> 63) % 2 ^ 15 ≠ 0)
+    (hfb : c.fbits < 63)
+    (hlo : c.minExpNormal ≤ (((bits >>> 63) % 2 ^ 15 : Nat) : Int) - (((2 ^ (15 - 1) : Nat) : Int) - 1))
+    (hhi : (((bits >>> 63) % 2 ^ 15 : Nat) : Int) - (((2 ^ (15 - 1) : Nat) : Int) - 1) + c.bias + 1 < c.emax) :
+    fromLD c qm sm hm bits = fromIeee c 15 63 qm sm bits := by
+  obtain ⟨hes, hfb1, hnb, _⟩ := valid_facts c hv
+  have hb0 := bias_nonneg c
+  have hmn : c.minExpNormal = 1 - c.bias := rfl
+  have hms : c.minExpSubnormal = 1 - c.bias - (c.fbits : Int) := rfl
+  have hlay : ¬ (c.nbits = 1 + 15 + 63 ∧ c.es = 15) := by omega
+  generalize hre : (bits >>> 63) % 2 ^ 15 = rawExp at *
+  generalize hrf : bits % 2 ^ 63 = rawFrac at *
+  generalize hsb : (((2 ^ (15 - 1) : Nat) : Int) - 1) = sbias at *
+  generalize hsg : bits.testBit (15 + 63) = s at *
+  have hmax : (rawExp : Int) - sbias ≤ c.maxExp := by
+    unfold Cfg.maxExp
+    have hem : (c.emax : Int) = ((2 ^ c.es : Nat) : Int) - 1 := by
+      unfold Cfg.emax; have := two_pow_pos c.es; omega
+    by_cases h1 : c.es = 1
+    · rw [if_pos h1]; rw [hem, h1] at hhi; norm_num at hhi; omega
+    · rw [if_neg h1]; omega
+  have e0 : ¬ (rawExp = 0 ∧ rawFrac = 0) := fun hc => hexp0 hc.1
+  have e1 : ¬ ((rawExp : Int) - sbias > c.maxExp) := by omega
+  have e2 : ¬ (c.sub = true ∧ (rawExp : Int) - sbias < c.minExpSubnormal - 1) := by
+    intro hc; have := hc.2; omega
+  have e3 : ¬ (¬ c.sub = true ∧ (rawExp : Int) - sbias < c.minExpNormal) := by
+    intro hc; have := hc.2; omega
+  have e4 : ¬ ((rawExp : Int) - sbias < c.minExpNormal) := by omega
+  have ht : (63 - c.fbits) % 64 = 63 - c.fbits := Nat.mod_eq_of_lt (by omega)
+  have ht1 : 63 - c.fbits ≥ 1 := by omega
+  unfold fromLD fromIeee
+  simp only [hspec, hre, hrf, hsb, hsg, hlay, e1, e2, e4, hfb, hexp0, if_false, if_true, ne_eq, not_false_eq_true,
+    Nat.add_zero, false_and, and_false, ht, ht1, decide_true, Bool.true_and]
+  congr 1
+  rw [Nat.or_mod_two_pow, Nat.or_mod_two_pow (a := _ <<< c.fbits), Nat.mod_mod_of_dvd _ (Nat.pow_dvd_pow 2 hn64)]
+
 end UVerif.Cfloat
